@@ -3264,9 +3264,37 @@ func ruleResultOwnArray(p *Prog, r *Report, names []string) {
 			continue
 		}
 		bad, ns := "", 0
-		eachInstr(fn, func(b *ssa.BasicBlock, in ssa.Instruction) {
+		// the function itself and the unexported helpers it hands the result pointer to
+		type retIn struct {
+			f   *ssa.Function
+			ptr ssa.Value
+		}
+		scope := []retIn{{fn, ret}}
+		seenF := map[*ssa.Function]bool{fn: true}
+		for i := 0; i < len(scope) && i < 6; i++ {
+			cur := scope[i]
+			eachInstr(cur.f, func(b *ssa.BasicBlock, in ssa.Instruction) {
+				c, ok := in.(ssa.CallInstruction)
+				if !ok {
+					return
+				}
+				h := staticCallee(c.Common())
+				if h == nil || seenF[h] || !p.InModule(h) || p.Exported(h) || len(h.Blocks) == 0 {
+					return
+				}
+				for ai, a := range c.Common().Args {
+					if a == cur.ptr && ai < len(h.Params) {
+						seenF[h] = true
+						scope = append(scope, retIn{h, h.Params[ai]})
+					}
+				}
+			})
+		}
+		for _, sc := range scope {
+		ret := sc.ptr
+		eachInstr(sc.f, func(b *ssa.BasicBlock, in ssa.Instruction) {
 			st, ok := in.(*ssa.Store)
-			if !ok || st.Addr != ssa.Value(ret) {
+			if !ok || st.Addr != ret {
 				return
 			}
 			ns++
@@ -3303,6 +3331,7 @@ func ruleResultOwnArray(p *Prog, r *Report, names []string) {
 				bad = p.Pos(st.Pos())
 			}
 		})
+		}
 		if bad != "" {
 			r.Bad(rule, n, "the result has an array of its own", bad, "the result slice is set to (or grown from) a list of the document itself at "+bad+": the result and the document share one array")
 		} else if ns > 0 {
